@@ -102,6 +102,9 @@ func (p *Program) transparent(fn *ssa.Function) bool {
 	if fn == nil {
 		return false
 	}
+	if o := fn.Origin(); o != nil {
+		fn = o
+	}
 	if v, ok := p.transp[fn]; ok {
 		return v
 	}
@@ -123,8 +126,8 @@ func (p *Program) transparent(fn *ssa.Function) bool {
 		return false
 	}
 	site := ci.sites[0]
-	if _, isGo := site.(*ssa.Go); isGo {
-		return false
+	if _, isCall := site.(*ssa.Call); !isCall {
+		return false // deferred / go'd functions keep their own frame (they run at another time)
 	}
 	host := site.Parent()
 	if host == fn {
@@ -324,4 +327,62 @@ func (p *Program) alternatives(v ssa.Value, depth int) []alt {
 		}
 	}
 	return []alt{{Val: v}}
+}
+
+// runCall is one execution of the property on a bit stream: a call of checkOnce, or of a package
+// function that wraps exactly one checkOnce(newT(_, <its stream parameter>, …), …) and returns its result.
+type runCall struct {
+	Call   *ssa.Call
+	Stream ssa.Value // resolved stream value (constructor call, parameter, …)
+	Prop   string    // rendered property operand
+}
+
+func (p *Program) runCallOf(c *ssa.Call) (*runCall, bool) {
+	key := p.calleeKey(c.Common())
+	if key == "checkOnce" {
+		nt, ok := p.resolve(c.Common().Args[0]).(*ssa.Call)
+		if !ok || p.calleeKey(nt.Common()) != "newT" {
+			return nil, false
+		}
+		return &runCall{Call: c, Stream: p.resolve(nt.Common().Args[1]), Prop: p.expr(c.Common().Args[1])}, true
+	}
+	sc := c.Common().StaticCallee()
+	if sc == nil || !p.inRapid(sc) || sc.Blocks == nil || knownFuncs[p.fnName(sc)] {
+		return nil, false
+	}
+	if o := sc.Origin(); o != nil {
+		sc = o
+	}
+	inner := p.callsTo(sc, "checkOnce")
+	rets := returnsOf(sc)
+	if len(inner) != 1 || len(rets) != 1 || len(rets[0].Results) != 1 || p.resolve(p.res(rets[0], 0)) != inner[0].Value() {
+		return nil, false
+	}
+	irc, ok := p.runCallOf(inner[0].Instr.(*ssa.Call))
+	if !ok {
+		return nil, false
+	}
+	par, ok := irc.Stream.(*ssa.Parameter)
+	if !ok || par.Parent() != sc {
+		return nil, false
+	}
+	for k, q := range sc.Params {
+		if q == par && k < len(c.Common().Args) {
+			return &runCall{Call: c, Stream: p.resolve(c.Common().Args[k]), Prop: irc.Prop}, true
+		}
+	}
+	return nil, false
+}
+
+// runCalls lists the executions of the property made by fn, in block order.
+func (p *Program) runCalls(fn *ssa.Function) []*runCall {
+	var out []*runCall
+	for _, cs := range p.calls(fn) {
+		if c, ok := cs.Instr.(*ssa.Call); ok {
+			if rc, ok := p.runCallOf(c); ok {
+				out = append(out, rc)
+			}
+		}
+	}
+	return out
 }
